@@ -184,6 +184,11 @@ fn string_methods(
         }
         "count" => {
             let (what,): (&str,) = from_args(args)?;
+            // the empty string is found between all characters; the loop
+            // below would never advance past it
+            if what.is_empty() {
+                return Ok(Value::from(s.chars().count() + 1));
+            }
             let mut c = 0;
             let mut rest = s;
             while let Some(offset) = rest.find(what) {
